@@ -393,6 +393,9 @@ def replay(doc):
   """./check C19 --replay file: re-runs the recorded request line on model and implementation."""
   import shims
   shims.install()
+  if doc.get('op') == 'sr.planted_root':
+    from corr import c19_misc
+    return c19_misc.replay_planted_root(doc)
   line = doc.get('line') or (doc.get('diverging_correspondence') or [{}])[0].get('line')
   print('replay line:', line)
   if not line:
